@@ -13,7 +13,16 @@ the emitted expression must be exactly the declared parameters, so a changed ope
 (`Kx[i+1]` instead of `Kx[i]`) fails closed as well.
 
 Two backends: "ops" (abstract complex field of Base/Ops.v; literals become exact rationals)
-and "R" (Coq reals with Rtrigo/Rpower functions)."""
+and "R" (Coq reals with Rtrigo/Rpower functions).
+
+Inlining is SSA-correct: every remembered right-hand side carries the environment that was
+current *before* its assignment, and is expanded in that environment.  So `w = f(w); u = g(w)`
+(re-assignment of a parameter, as in compute_wind_fields) expands to g(f(w_param)); a name that
+is listed in `inline` but has no binding in the environment of the right-hand side being
+expanded is the function's own parameter and stays free (it must then be declared in `params`).
+Optional slice keys: `elt` (select one component when the target's right-hand side is a tuple,
+e.g. target "return" of `return x, y`), `module_consts` (names of module-level numeric constants,
+e.g. `_EARTH_RADIUS = 6_371_000.0`, to be replaced by their literal value read from the module)."""
 import ast
 from fractions import Fraction
 import re
@@ -33,12 +42,13 @@ def _san(s):
 
 
 class Emitter:
-    def __init__(self, backend, env, inline, consts=None):
+    def __init__(self, backend, env, inline, consts=None, modconsts=None):
         self.backend = backend
-        self.env = env  # name -> ast node (most recent rhs)
+        self.env = env  # name -> (ast node of the most recent rhs, environment before that assignment)
         self.inline = set(inline)
         self.free = []
         self.consts = consts or {}
+        self.modconsts = modconsts or {}  # name -> ast Constant node (module-level numeric literal)
         self.depth = 0
 
     # --- literals
@@ -73,14 +83,26 @@ class Emitter:
 
     def name(self, n):
         if n in self.inline:
-            if n not in self.env:
+            if n not in self.env and self.depth == 0:
                 raise TranslateError("name %s to inline has no earlier assignment" % n)
-            self.depth += 1
-            if self.depth > 50:
-                raise TranslateError("inline recursion")
-            r = self.expr(self.env[n])
-            self.depth -= 1
-            return r
+            if n in self.env:
+                self.depth += 1
+                if self.depth > 50:
+                    raise TranslateError("inline recursion")
+                node, before = self.env[n]
+                saved = self.env
+                self.env = before  # SSA: expand the rhs in the environment of its own assignment
+                try:
+                    r = self.expr(node)
+                finally:
+                    self.env = saved
+                self.depth -= 1
+                return r
+            # inside an inlined rhs and unbound there: the function's own parameter -> free name
+        if n in self.modconsts:
+            if n in self.env:
+                raise TranslateError("module constant %s is shadowed by a local assignment" % n)
+            return self.expr(self.modconsts[n])
         if n in self.consts:
             return self.consts[n]
         if n not in self.free:
@@ -355,12 +377,30 @@ def translate(path, slices, backend, consts=None):
                 if seen == occ:
                     found = rhs
                     break
-            env[name] = rhs
+            before = env
+            env = dict(env)
+            env[name] = (rhs, before)
         if found is None:
             raise TranslateError("slice %s: assignment #%d to %s not found in %s" % (sl["name"], occ, sl["target"], sl["func"]))
-        em = Emitter(backend, env, sl.get("inline", []), consts=dict(consts or {}, **sl.get("consts", {})))
         if sl.get("path"):
             found = follow_path(found, sl["path"])
+        if "elt" in sl:
+            if not isinstance(found, ast.Tuple) or not (0 <= sl["elt"] < len(found.elts)):
+                raise TranslateError("slice %s: %s is not a tuple with a component %r" % (sl["name"], ast.unparse(found), sl["elt"]))
+            if "arity" in sl and len(found.elts) != sl["arity"]:
+                raise TranslateError("slice %s: tuple %s has not %d components" % (sl["name"], ast.unparse(found), sl["arity"]))
+            found = found.elts[sl["elt"]]
+        elif isinstance(found, ast.Tuple):
+            raise TranslateError("slice %s: tuple-valued right-hand side %s needs `elt`" % (sl["name"], ast.unparse(found)))
+        modconsts = {}
+        for mc in sl.get("module_consts", []):
+            nodes = [st.value for st in tree.body if isinstance(st, ast.Assign) and len(st.targets) == 1
+                     and isinstance(st.targets[0], ast.Name) and st.targets[0].id == mc]
+            if len(nodes) != 1 or not isinstance(nodes[0], ast.Constant) or isinstance(nodes[0].value, bool) \
+                    or not isinstance(nodes[0].value, (int, float)):
+                raise TranslateError("slice %s: module constant %s is not a single numeric literal assignment" % (sl["name"], mc))
+            modconsts[mc] = nodes[0]
+        em = Emitter(backend, env, sl.get("inline", []), consts=dict(consts or {}, **sl.get("consts", {})), modconsts=modconsts)
         body = em.expr(found)
         if sorted(em.free) != sorted(sl["params"]):
             raise TranslateError("slice %s: free names %r differ from the declared parameters %r" % (sl["name"], sorted(em.free), sorted(sl["params"])))
